@@ -20,7 +20,7 @@ def run():
         rep.merge_counts(r['out']); cands += r['cands']
         for s in r['out'].get('stubs', []):
             if 'stub: ' + s not in rep.assumptions: rep.assumptions.append('stub: ' + s)
-    out2, c2 = jitwhole.run_families(t, timeout, ('F2', 'F3', 'F5'))
+    out2, c2 = jitwhole.run_families(t, timeout, ('F2', 'F3', 'F5', 'F1w'))
     rep.merge_counts(out2); cands += c2
     ops = sorted(set(spec.opname(i[0]) for i in insts))
     rep.extra['per_instruction_instances'] = len(insts); rep.extra['opcodes_covered'] = len(ops)
